@@ -3,7 +3,8 @@ import LyModel.Iff.LemmasRange
 # C11 — range / length restrictions
 
 Model: `LyModel.Range.compileRange` (= `lys_compile_type_range`: the part parser `loop` and the base-restriction
-`walk`), `validate` (= `lyplg_type_validate_range`).
+`walk`), `validate` (= `lyplg_type_validate_range`).  `fx : RFix` says which of the candidate repairs fixes/F30.diff,
+fixes/F51.diff the modelled source contains (`{}` = the pinned tree).
 -/
 namespace LyModel.Props.C11
 open LyModel LyModel.Range
@@ -30,15 +31,15 @@ example : validate [⟨5, 5⟩, ⟨1, 1⟩] 1 = false := by decide
 
 /-- Full-strength statement: whenever `lys_compile_type_range` accepts a restriction of a type that already has the
 restriction `base`, every part of the result lies within one part of `base` (so the accepted values are a subset). -/
-def RangeSubsetSound : Prop :=
+def RangeSubsetSound (fx : RFix) : Prop :=
   ∀ (t : RType) (base : List Part) (arg : Bytes) (parts : List Part),
-    compileRange t (some base) arg = .ok parts → ∀ p ∈ parts, Within p base
+    compileRange fx t (some base) arg = .ok parts → ∀ p ∈ parts, Within p base
 
 /-- **F51.** False: in `range "1 100"` the second number opens a new part without `|`, `parts_done` is not advanced, and
 the subset walk (which runs to `parts_done`) never looks at the part `100` — accepted against the base `1..10`. -/
-theorem range_subset_sound_fails : ¬ RangeSubsetSound := by
+theorem range_subset_sound_fails : ¬ RangeSubsetSound {} := by
   intro h
-  have hc : compileRange int8 (some [⟨1, 10⟩]) [0x31, 0x20, 0x31, 0x30, 0x30] = .ok [⟨1, 1⟩, ⟨100, 100⟩] := by rfl
+  have hc : compileRange {} int8 (some [⟨1, 10⟩]) [0x31, 0x20, 0x31, 0x30, 0x30] = .ok [⟨1, 1⟩, ⟨100, 100⟩] := by rfl
   obtain ⟨b, hb, _, h2⟩ := h int8 [⟨1, 10⟩] _ _ hc ⟨100, 100⟩ (by simp)
   simp only [List.mem_singleton] at hb
   subst hb
@@ -47,9 +48,10 @@ theorem range_subset_sound_fails : ¬ RangeSubsetSound := by
 /-- The part that holds — for every type, base and argument: if the parser's own part counter agrees with the number of
 parts it produced (every part was closed by `|` or the end of the argument, which is what the RFC grammar guarantees),
 an accepted derived restriction has every part within a part of the base; in particular widening is rejected. -/
-theorem range_subset_sound_partial (t : RType) (base : List Part) (arg : Bytes) (parts : List Part) (done : Nat)
-    (hloop : loop t (some base) (arg.length + 1) arg {} = .ok (parts, done)) (hdone : done = parts.length)
-    (hc : compileRange t (some base) arg = .ok parts) : ∀ p ∈ parts, Within p base := by
+theorem range_subset_sound_partial (fx : RFix) (t : RType) (base : List Part) (arg : Bytes) (parts : List Part)
+    (done : Nat) (hloop : loop fx t (some base) (arg.length + 1) arg {} = .ok (parts, done))
+    (hdone : done = parts.length) (hc : compileRange fx t (some base) arg = .ok parts) :
+    ∀ p ∈ parts, Within p base := by
   unfold compileRange at hc
   rw [hloop] at hc
   simp only [] at hc
@@ -68,30 +70,33 @@ theorem range_subset_sound_partial (t : RType) (base : List Part) (arg : Bytes) 
       exact hwithin
 
 /-- `range "2..5|7"` derived from `1..10`: the hypotheses are satisfiable -/
-example : loop int8 (some [⟨1, 10⟩]) 8 [0x32, 0x2e, 0x2e, 0x35, 0x7c, 0x37] {} = .ok ([⟨2, 5⟩, ⟨7, 7⟩], 2) ∧
-    compileRange int8 (some [⟨1, 10⟩]) [0x32, 0x2e, 0x2e, 0x35, 0x7c, 0x37] = .ok [⟨2, 5⟩, ⟨7, 7⟩] := ⟨rfl, rfl⟩
+example : loop {} int8 (some [⟨1, 10⟩]) 8 [0x32, 0x2e, 0x2e, 0x35, 0x7c, 0x37] {} = .ok ([⟨2, 5⟩, ⟨7, 7⟩], 2) ∧
+    compileRange {} int8 (some [⟨1, 10⟩]) [0x32, 0x2e, 0x2e, 0x35, 0x7c, 0x37] = .ok [⟨2, 5⟩, ⟨7, 7⟩] := ⟨rfl, rfl⟩
 
 /-- widening `range "2..11"` of `1..10` is rejected -/
-example : compileRange int8 (some [⟨1, 10⟩]) [0x32, 0x2e, 0x2e, 0x31, 0x31] = .error .valid := rfl
+example : compileRange {} int8 (some [⟨1, 10⟩]) [0x32, 0x2e, 0x2e, 0x31, 0x31] = .error .valid := rfl
+
+/-- with fixes/F51.diff the witness `1 100` is a syntax error -/
+example : compileRange { f51 := true } int8 (some [⟨1, 10⟩]) [0x31, 0x20, 0x31, 0x30, 0x30] = .error .valid := rfl
 
 /-! ## the parser never reads outside its arrays -/
 
 /-- Full-strength statement: the compiler of range/length arguments terminates with a result or an error for every
 type, base restriction and argument (no out-of-bounds access). -/
-def RangeParseSafe : Prop :=
-  ∀ (t : RType) (base : Option (List Part)) (arg : Bytes), compileRange t base arg ≠ .error .crashOob
+def RangeParseSafe (fx : RFix) : Prop :=
+  ∀ (t : RType) (base : Option (List Part)) (arg : Bytes), compileRange fx t base arg ≠ .error .crashOob
 
 /-- **F30.** False: `range "min||"` on a type derived from `1..10`: each `|` increments `parts_done` although no part
 follows, the subset walk then reads `parts[1]`, `parts[2]` of a one-element array. -/
-theorem range_parse_safe_fails : ¬ RangeParseSafe := by
+theorem range_parse_safe_fails : ¬ RangeParseSafe {} := by
   intro h
   exact h int8 (some [⟨1, 10⟩]) [0x6d, 0x69, 0x6e, 0x7c, 0x7c] rfl
 
 /-- The part that holds: without a base restriction there is no walk and hence no out-of-bounds read, and with one the
 walk stays inside whenever the part counter does not exceed the number of parts. -/
-theorem range_parse_safe_partial (t : RType) (base : List Part) (arg : Bytes) (parts : List Part) (done : Nat)
-    (hloop : loop t (some base) (arg.length + 1) arg {} = .ok (parts, done)) (hdone : done ≤ parts.length) :
-    compileRange t (some base) arg ≠ .error .crashOob := by
+theorem range_parse_safe_partial (fx : RFix) (t : RType) (base : List Part) (arg : Bytes) (parts : List Part)
+    (done : Nat) (hloop : loop fx t (some base) (arg.length + 1) arg {} = .ok (parts, done))
+    (hdone : done ≤ parts.length) : compileRange fx t (some base) arg ≠ .error .crashOob := by
   unfold compileRange
   rw [hloop]
   simp only []
@@ -119,5 +124,8 @@ theorem range_parse_safe_partial (t : RType) (base : List Part) (arg : Bytes) (p
     subst he
     exact key _ _ _ hw
   | ok b => cases b <;> simp
+
+/-- with fixes/F30.diff the witness `min||` is a syntax error -/
+example : compileRange { f30 := true } int8 (some [⟨1, 10⟩]) [0x6d, 0x69, 0x6e, 0x7c, 0x7c] = .error .valid := rfl
 
 end LyModel.Props.C11
